@@ -421,7 +421,7 @@ Theorem judge_sound : forall c,
 Proof.
   intros c A G S. unfold agrees in A. apply andb_true_iff in A. destruct A as [_ A].
   unfold C16_guard in G. unfold C16_ok. unfold in_scope in S.
-  destruct (unwrap c) as [x y pr ps os|e seed writes emitted|e seed writes emitted| | | |]; try discriminate S.
+  destruct (unwrap c) as [x y pr ps os|e seed writes emitted|e seed writes emitted| | | | |]; try discriminate S.
   - cbn [agrees_core guard_core ok_core] in *.
     apply andb_true_iff in A. destruct A as [A A3]. apply andb_true_iff in A. destruct A as [_ A2].
     apply andb_true_iff in G. destruct G as [G G3]. apply andb_true_iff in G. destruct G as [Gx Gy].
